@@ -23,6 +23,34 @@ def _poly(coefs, x):
     return v, d
 
 
+def _touching(coefs, kind, lo, hi):
+    """input class: the generating polynomial (its derivative for minmax) comes within 1e-3 of its
+    scale of zero at a point of [lo, hi] where its own derivative (nearly) vanishes - a double or
+    nearly double root, on which the implementation's Newton/regula-falsi switch is known to stall"""
+    if coefs is None or not (lo < hi):
+        return 0
+    c = [float(v) for v in coefs]
+    if kind == "minmax":
+        c = [k * c[k] for k in range(1, len(c))] or [0.0]
+    d = [k * c[k] for k in range(1, len(c))] or [0.0]
+
+    def ev(cc, x):
+        v = 0.0
+        for a in reversed(cc):
+            v = v * x + a
+        return v
+    n = 1500
+    xs = [lo + (hi - lo) * i / n for i in range(n + 1)]
+    pv = [ev(c, x) for x in xs]
+    dv = [ev(d, x) for x in xs]
+    ps, ds = max(1e-300, max(abs(v) for v in pv)), max(1e-300, max(abs(v) for v in dv))
+    for i in range(n):
+        # an extremum of the function between two grid points (derivative changes sign or is tiny) with a tiny value
+        if (dv[i] * dv[i + 1] <= 0 or abs(dv[i]) < 0.02 * ds) and min(abs(pv[i]), abs(pv[i + 1])) < 2e-3 * ps:
+            return 1
+    return 0
+
+
 def _build(form, xs, ys):
     from pymeeus.Interpolation import Interpolation
     if form == "lists":
@@ -160,7 +188,8 @@ def gen_interp(seed, shard, n):
             for kind, f, t in (("root", it.root, tol), ("minmax", it.minmax, 1e-10)):
                 if kind == "minmax" and len(xs) < 3:
                     continue
-                ev = dict(held, k=kind, xl=fx(a), xh=fx(b), xlf=a, xhf=b, tol=fx(t))
+                ev = dict(held, k=kind, site=kind, xl=fx(a), xh=fx(b), xlf=a, xhf=b, tol=fx(t),
+                          touch=_touching(coefs, kind, max(min(a, b), xmin), min(max(a, b), xmax)))
                 try:
                     r = f(a, b)
                     ev["r"], ev["oc"], ev["rf"] = fx(r), "ok", r
